@@ -138,10 +138,18 @@ class HCandle:
         if name == "tag":
             # the tag setter raises CandleAlreadyTagged when a tag is already set
             ex.need(st, cs.get("tag", self.i) == 0, "CandleAlreadyTagged", node)
-            cs.set("tag", self.i, to_int_term(value.t if isinstance(value, TagV) else value), ex, st, node)
+            code = tag_code(value) if isinstance(value, str) else to_int_term(value.t if isinstance(value, TagV) else value)
+            cs.set("tag", self.i, code, ex, st, node)
             yield st
             return
         raise Unsupported(f"heap candle attribute store {name}")
+
+
+def tag_code(s):
+    """candlestick-type names as non-zero integers (0 is None)"""
+    import zlib
+
+    return z3.IntVal(1 + (zlib.crc32(s.encode()) % 1000003))
 
 
 class TagV:
@@ -158,6 +166,8 @@ class TagV:
             return to_int_term(self.t) == to_int_term(other.t)
         if other is None:
             return to_int_term(self.t) == 0
+        if isinstance(other, str):
+            return to_int_term(self.t) == tag_code(other)
         return False
 
 
